@@ -3,6 +3,7 @@ package c15
 import (
 	"context"
 	"fmt"
+	"os"
 	"github.com/samsarahq/thunder/batch"
 	"math/rand"
 	"regexp"
@@ -34,6 +35,7 @@ func TestDbgGen(t *testing.T) {
 					mut = "MUT "
 				}
 			}
+			os.WriteFile("/tmp/c15w/dbg-cur.txt", []byte(c.Query), 0o644)
 			q, err := graphql.Parse(c.Query, c.Vars)
 			k := mut + "ok"
 			if err == nil {
@@ -59,7 +61,7 @@ func TestDbgGen(t *testing.T) {
 						}
 					}
 				}
-				if c.Schema == "gw" {
+				if false {
 					q2, _ := graphql.Parse(c.Query, c.Vars)
 					_, _, gerr := gw.exec.Execute(context.Background(), q2, nil)
 					if gerr != nil {
